@@ -1252,6 +1252,91 @@ RTF = "sharepoint2text/parsing/extractors/ms_legacy/rtf_extractor.py"
 IS_SKIP = z3.Function("rtf.is_skip_destination", S, B)
 
 
+# ---- (round 7) the destination test itself under contract ------------------------------------------------
+# Statement: "text that the documentation excludes from the default full text (... headers/footers ...) never appears",
+# "no text that is neither in the source ..." (font / colour / style tables, document info, picture data are not body
+# text) and "nothing lost": a group is skipped ONLY when it is an ignorable destination ({\* ...}) or starts with a
+# control word of the class's own destination table.  The table is a class constant; it is read from the source on
+# every run (not transcribed here), the always-excluded destinations are written down from the statement.
+RTF_EXCLUDED = ("header", "footer", "fonttbl", "colortbl", "stylesheet", "info", "pict")      # (headerl/r/f, footerl/r/f start with header / footer)
+
+
+def _is_call_site(c, owner):
+    return getattr(c.ex, "contract", None) is not owner or c.ex.inline_depth > 0 or getattr(c.ex, "in_apply", 0) > 0
+
+
+def rtf_skip_table(fn_qual):
+    """(attribute name, items) of the class-level table of str the destination test reads through `self`; None when
+    there is no single such table or it is not a literal (then the test stays an ASSUMED uninterpreted predicate)."""
+    import ast
+    from pyvc import loader
+    try:
+        mod = loader.module(RTF)
+        fn = mod.functions.get(fn_qual)
+        cls = mod.classes.get(fn_qual.rsplit(".", 1)[0]) if "." in fn_qual else None
+        if fn is None or cls is None or not fn.args.args:
+            return None
+        me = fn.args.args[0].arg
+        used = {x.attr for x in ast.walk(fn) if isinstance(x, ast.Attribute) and isinstance(x.value, ast.Name) and x.value.id == me}
+        tables = {}
+        for node in cls.body:
+            tgt = node.targets[0] if isinstance(node, ast.Assign) and len(node.targets) == 1 else (node.target if isinstance(node, ast.AnnAssign) else None)
+            if isinstance(tgt, ast.Name) and tgt.id in used and getattr(node, "value", None) is not None:
+                v = node.value
+                if isinstance(v, ast.Call) and isinstance(v.func, ast.Name) and v.func.id in ("frozenset", "set", "tuple", "list") and len(v.args) == 1 and not v.keywords:
+                    v = v.args[0]
+                try:
+                    items = ast.literal_eval(v)
+                except (ValueError, SyntaxError):
+                    return None
+                if not isinstance(items, (set, frozenset, tuple, list)) or not all(isinstance(x, str) for x in items):
+                    return None
+                tables[tgt.id] = sorted(set(items))
+        if len(tables) != 1:
+            return None
+        return next(iter(tables.items()))
+    except Exception:  # noqa
+        return None
+
+
+def rtf_skip_contract(ISSKIP, sk_):
+    """VERIFIED contract of `_RtfParser._is_skip_destination` (None: the table is not a literal; the predicate stays assumed)."""
+    from pyvc.values import VSetC
+    tab = rtf_skip_table(ISSKIP)
+    if tab is None or not sk_.ok:
+        return None
+    attr, items = tab
+    bs = lit("\\")
+
+    def spec(a):
+        return z3.Or([z3.PrefixOf(lit("\\*"), a)] + [z3.PrefixOf(cc(bs, lit(k)), a) for k in items])
+
+    own = []
+
+    def returns(c):
+        a = sk_(c, "ahead").t
+        if _is_call_site(c, own[0]):
+            return VBool(IS_SKIP(a))          # call-site view: a function of the lookahead (implied: the table is a constant)
+        return VBool(spec(a))
+
+    def excluded(d):
+        return lambda c: z3.Implies(z3.PrefixOf(lit("\\" + d), sk_(c, "ahead").t),
+                                    z3.BoolVal(True) if _is_call_site(c, own[0]) else (c.result.t if isinstance(c.result, VBool) else z3.BoolVal(False)))
+
+    p_self = p_obj("_RtfParser", {attr: Maker(lambda ex, st, n: VSetC(items, name=attr), desc=f"the class constant {attr} ({len(items)} control words, read from the source)")})
+    con = under(
+        RTF, "_RtfParser._is_skip_destination", ISSKIP,
+        params=sk_.params({"self": p_self, "ahead": p_str()}),
+        returns=returns,
+        ensures=[(f"excluded-destination-is-skipped[{d}]", X.robust(excluded(d))) for d in RTF_EXCLUDED],
+        note="result == (lookahead starts with `\\*` or with `\\` + a control word of the class's destination table); headers, footers and the "
+             "non-text destinations of the statement are skipped whatever the table says.  Call sites see the result as an (uninterpreted) "
+             "function of the lookahead, which this contract implies",
+    )
+    own.append(con)
+    return con
+
+
 def rtf_contracts():
     unk = lambda: Maker(lambda ex, st, n: VUnk(n), desc="any")
     p_self = p_obj("_RtfParser", {"pages": unk(), "SPECIAL_CHARS": unk(), "SKIP_DESTINATIONS": unk()})
@@ -1259,7 +1344,11 @@ def rtf_contracts():
     WALK = find_fn(RTF, "_RtfParser._strip_rtf_full_with_pages", mentions=["SPECIAL_CHARS", "pages"], calls=[ISSKIP], nparams=2)
     sk_ = Sig(RTF, ISSKIP, ["self", "ahead"])
     isskip = FnContract(target=f"{RTF}::{ISSKIP}", params=sk_.params({"self": p_self, "ahead": p_str()}), assumed=True,
-                        returns=lambda c: VBool(IS_SKIP(sk_(c, "ahead").t)), note="which control words are destinations is a table (uninterpreted here)")
+                        returns=lambda c: VBool(IS_SKIP(sk_(c, "ahead").t)),
+                        note="fallback only (the destination table is not a literal class constant): which control words are destinations is uninterpreted")
+    isskip_v = rtf_skip_contract(ISSKIP, sk_)          # round 7: VERIFIED; its call-site view is the same uninterpreted predicate
+    if isskip_v is not None:
+        isskip = isskip_v
 
     def roles():
         """The walker's state variables, found by what they do, not by name: in the branch guarded by the
